@@ -155,7 +155,7 @@ func c02Run(inI interface{}, env *Env) *Failure {
 			if r.Panic != "" {
 				return failf("C02/panic", key, "op %d %s on the %s filespace panicked: %s", i, op, sd.name, r.Panic)
 			}
-			got, clause, msg := WalkFS(sd.fs)
+			got, clause, msg := WalkFSLimit(sd.fs, sd.model.WalkLimit())
 			if clause != "" {
 				return failf("C02/"+clause, key, "after op %d %s on %s: %s", i, op, sd.name, msg)
 			}
